@@ -9,6 +9,9 @@ package main
 
 import (
 	"bufio"
+	"go/ast"
+	"go/parser"
+	"go/token"
 	"bytes"
 	"encoding/json"
 	"fmt"
@@ -212,8 +215,47 @@ func sanitize(s string) string {
 	return regexp.MustCompile(`[^A-Za-z0-9_.-]+`).ReplaceAllString(s, "_")
 }
 
+// updateCalls extracts the package-qualified calls of main.update() in source order.
+func updateCalls() []string {
+	fset := token.NewFileSet()
+	f, err := parser.ParseFile(fset, filepath.Join(repoDir, "main.go"), nil, 0)
+	if err != nil {
+		return nil
+	}
+	var out []string
+	for _, d := range f.Decls {
+		fd, ok := d.(*ast.FuncDecl)
+		if !ok || fd.Name.Name != "update" || fd.Body == nil {
+			continue
+		}
+		for _, st := range fd.Body.List {
+			ast.Inspect(st, func(n ast.Node) bool {
+				if _, isLit := n.(*ast.FuncLit); isLit {
+					return false
+				}
+				if ce, ok := n.(*ast.CallExpr); ok {
+					if se, ok := ce.Fun.(*ast.SelectorExpr); ok {
+						if id, ok := se.X.(*ast.Ident); ok {
+							out = append(out, id.Name+"."+se.Sel.Name)
+						}
+					}
+				}
+				return true
+			})
+		}
+	}
+	return out
+}
+
+var wantUpdateCalls = "config.Read compress.Reset cache.ResetDispatchers upstream.ResetWithOnStats location.Reset server.Reset server.Start"
+
 func check(id, tier string) int {
 	t0 := time.Now()
+	if id == "C16" || id == "C17" {
+		if got := strings.Join(updateCalls(), " "); got != wantUpdateCalls {
+			fatal(2, "HARNESS ERROR: main.update() no longer performs the call sequence the harness mirrors in env.Apply\n  main.go: %s\n  harness: %s", got, wantUpdateCalls)
+		}
+	}
 	seed, _ := strconv.ParseInt(os.Getenv("VERIF_SEED"), 10, 64)
 	pl := planOf(id)
 	bin := build(pl.race)
